@@ -394,6 +394,13 @@ impl UpdateHandle {
         for _ in 0..self.num_workers {
             let output = join_task(&self.worker_rx)?;
 
+            #[cfg(nomt_verif)]
+            crate::verif_api::split_trace::push(crate::verif_api::split_trace::Event::Joined {
+                shard: output.verif_shard,
+                witnessed_start: output.witnessed_start,
+                paths: output.witnessed_paths.as_ref().map(|p| p.len()),
+            });
+
             if let Some(root) = output.root {
                 assert!(new_root.is_none());
                 new_root = Some(root);
@@ -501,6 +508,9 @@ struct WorkerOutput {
     // witnessed by one worker are contiguous and in order, but workers finish in any order.
     witnessed_start: Option<usize>,
     updated_pages: Vec<UpdatedPage>,
+    // the shard index of the worker that produced this output (verification trace only).
+    #[cfg(nomt_verif)]
+    verif_shard: Option<usize>,
 }
 
 impl WorkerOutput {
@@ -510,6 +520,8 @@ impl WorkerOutput {
             witnessed_paths: if witness { Some(Vec::new()) } else { None },
             witnessed_start: None,
             updated_pages: Vec::new(),
+            #[cfg(nomt_verif)]
+            verif_shard: None,
         }
     }
 }
